@@ -12,15 +12,17 @@ import (
 var comps = []string{"a", "b", "c", "d", "f", "l", "k", "x y", "\xc3\xa9", "a", "b", "l"}
 
 type gen struct {
-	r     *hx.Rng
-	zip   bool
-	priv  bool
-	items []string
-	names []string // names (relative to dst) that exist already or are created by earlier entries
-	syms  []string // those of them that are symbolic links
-	files []string // those of them that are regular files
-	adv   int      // percentage of adversarial choices in this archive
-	cnt   int
+	r            *hx.Rng
+	zip          bool
+	priv         bool
+	items        []string
+	names        []string // names (relative to dst) that exist already or are created by earlier entries
+	syms         []string // those of them that are symbolic links
+	files        []string // those of them that are regular files
+	adv          int      // percentage of adversarial choices in this archive
+	cnt          int
+	maskOverride int // -1 = none
+	forceDst     bool
 }
 
 func (g *gen) plain() string {
@@ -103,7 +105,56 @@ func (g *gen) fresh() string {
 	return s
 }
 
+var nfc, nfd = "\u00e9", "e\u0301" // the same letter composed and decomposed: different names for the kernel
+
+// weird returns names at the limits of what the file system takes: 255-byte components, depth 35, a path of ~3.9 KB,
+// control characters, backslashes, trailing dots, only dots, invalid UTF-8, normalisation pairs.
+func (g *gen) weird() string {
+	r := g.r
+	long := func(c byte, k int) string {
+		return strings.Repeat(string([]byte{c}), 255-k) + fmt.Sprintf("%0*d", k, r.Intn(9))
+	}
+	switch r.Intn(14) {
+	case 0:
+		return long('L', 1)
+	case 1:
+		return long('M', 1) + "/" + long('N', 1)
+	case 2: // depth 35
+		return strings.Repeat("a/", 34) + "f"
+	case 3: // depth 64 with a file at the bottom
+		return strings.Repeat("d/", 63) + hx.Pick(r, comps)
+	case 4: // near PATH_MAX: 15 components of 255 bytes
+		parts := make([]string, 15)
+		for i := range parts {
+			parts[i] = strings.Repeat(string([]byte{byte('a' + i)}), 255)
+		}
+		return strings.Join(parts, "/")
+	case 5:
+		return hx.Pick(r, []string{"a.", "a..", "...", "....", ".a", "..a", "a/...", ".../b"})
+	case 6:
+		return hx.Pick(r, []string{"a\\b", "\\", "..\\x", "a\\..\\..\\x", "c:\\x"})
+	case 7:
+		return hx.Pick(r, []string{"a\nb", "\n", "a\tb", "\r", "a\x7fb", "\x01"})
+	case 8:
+		return hx.Pick(r, []string{nfc, nfd, nfc + "/" + nfd, nfd + "/x"})
+	case 9:
+		return hx.Pick(r, []string{"\xff\xfe", "a\xc3", "\xe2\x80\xae" + "x", "\xef\xbb\xbf" + "a"})
+	case 10:
+		return hx.Pick(r, []string{" ", "  ", "-", "--x", "~", "*", "?", "a b c", "$HOME", "%00", "CON", "a:b"})
+	case 11: // 100/101 bytes: the ustar name field boundary; 155+100: the prefix split
+		return hx.Pick(r, []string{strings.Repeat("x", 100), strings.Repeat("x", 101), strings.Repeat("p", 155) + "/" + strings.Repeat("n", 100),
+			strings.Repeat("p", 156) + "/" + strings.Repeat("n", 100), strings.Repeat("q", 99) + "/" + "a"})
+	case 12:
+		return g.plain() + "/" + long('Z', 2)
+	default:
+		return strings.Repeat("e/", r.Range(28, 40)) + g.plain()
+	}
+}
+
 func (g *gen) name() string {
+	if g.r.Chance(1, 30) {
+		return g.weird()
+	}
 	if g.r.Intn(100) >= g.adv {
 		if g.r.Chance(1, 4) {
 			return g.plain()
@@ -138,6 +189,11 @@ func (g *gen) size() int {
 		return 1
 	case v < 43:
 		return 70000
+	case v < 46: // around io.Copy's 32 KiB buffer; rarely 1 MiB
+		if g.r.Chance(1, 12) {
+			return 1 << 20
+		}
+		return hx.Pick(g.r, []int{32767, 32768, 32769, 65536, 65537})
 	case v < 50:
 		return hx.Pick(g.r, []int{511, 512, 513, 1024})
 	default:
@@ -145,8 +201,9 @@ func (g *gen) size() int {
 	}
 }
 
-var fileModes = []int{0o644, 0o644, 0o600, 0o755, 0o444, 0o400, 0o000, 0o777, 0o4755, 0o666, 0o640, 0o751}
-var dirModes = []int{0o755, 0o755, 0o700, 0o777, 0o555, 0o000, 0o750, 0o711, 0o1777, 0o775} // no setgid: the kernel would propagate it to children
+var fileModes = []int{0o644, 0o644, 0o600, 0o755, 0o444, 0o400, 0o000, 0o777, 0o4755, 0o666, 0o640, 0o751, 0o664, 0o775, 0o7777,
+																		0o7777777, 1<<40 | 0o646, 0o1000, 0o001, 0o002, 0o020}
+var dirModes = []int{0o755, 0o755, 0o700, 0o777, 0o555, 0o000, 0o750, 0o711, 0o1777, 0o775, 0o777, 0o7777777 &^ 0o2000, 1<<40 | 0o757, 0o500} // no setgid: the kernel would propagate it to children
 
 func (g *gen) fmode() int {
 	m := hx.Pick(g.r, fileModes)
@@ -254,6 +311,7 @@ func (g *gen) sandbox() {
 		g.initFile("dst2/keep", 0o600, 5, 3)
 	}
 	switch v := r.Intn(100); {
+	case g.forceDst:
 	case v < 12: // destination missing
 		return
 	case v < 16: // destination is a file
@@ -270,7 +328,11 @@ func (g *gen) sandbox() {
 		have[nm] = true
 		switch r.Intn(6) {
 		case 0, 1:
-			g.initDir("dst/"+nm, g.dmode()|0o700)
+			dm := g.dmode() | 0o700
+			if g.priv && r.Chance(1, 3) {
+				dm = hx.Pick(r, []int{0o555, 0o500, 0o000, 0o111}) // read-only / untraversable for ordinary users
+			}
+			g.initDir("dst/"+nm, dm)
 			g.note(nm, false)
 			if r.Bool() {
 				g.initFile("dst/"+nm+"/f", g.fmode(), r.Intn(200), r.Intn(6))
@@ -321,16 +383,32 @@ func (g *gen) randomEntry() {
 		case v < 50:
 			n := g.size()
 			pres := n
+			fault := ""
 			if n > 0 && r.Intn(100) < g.adv/8+1 {
-				pres = 0
+				switch r.Intn(3) {
+				case 0:
+					pres = 0 // CRC mismatch
+				case 1:
+					fault = "L" // declared size one more than the payload
+				default:
+					if n <= 40 {
+						fault = "S" // declared size one less than the payload
+					} else {
+						pres = 0
+					}
+				}
 			}
-			g.entry("f", nm, g.fmode(), seed, n, pres, "")
+			g.entry("f", nm, g.fmode(), seed, n, pres, fault)
 			g.noteFile(nm)
 		case v < 72:
 			if r.Bool() && !strings.HasSuffix(nm, "/") {
 				nm += "/"
 			}
-			g.entry("d", nm, g.dmode(), seed, 0, 0, "")
+			n := 0
+			if !strings.HasSuffix(nm, "/") && r.Chance(1, 3) {
+				n = g.r.Range(1, 30) // directory bit AND a payload: the payload is ignored
+			}
+			g.entry("d", nm, g.dmode(), seed, n, n, "")
 			g.note(nm, false)
 		default:
 			tg := g.symTarget()
@@ -371,10 +449,17 @@ func (g *gen) randomEntry() {
 		g.entry("l", nm, 0o644, seed, 0, 0, g.linkTarget())
 		g.note(nm, false)
 	case v < 97:
-		g.entry("o", g.regName(nm), 0o644, seed, 0, 0, "")
+		// type flags the extractor skips: fifo, character and block device, contiguous file (with a payload), PAX global header
+		k := hx.Pick(r, []string{"o", "o", "c", "b", "n", "g"})
+		n := 0
+		if k == "n" {
+			n = r.Range(0, 600)
+		}
+		g.entry(k, g.regName(nm), 0o644, seed, n, n, "")
 	default:
 		if r.Intn(100) < g.adv {
-			g.entry("x", "-", 0, 0, 0, 0, "")
+			// seed 0: a block of 0xff (bad checksum); seed 1: the stream ends 100 bytes into the header
+			g.entry("x", "-", 0, r.Intn(2), 0, 0, "")
 		} else {
 			g.entry("d", g.plain(), g.dmode(), seed, 0, 0, "")
 		}
@@ -386,7 +471,72 @@ func (g *gen) scenario() {
 	r := g.r
 	fk := g.fileKind()
 	out := hx.Pick(r, []string{"../outside", "/tmp/" + placeholder + "/outside", "../dst-evil", ".."})
-	switch r.Intn(12) {
+	switch r.Intn(19) {
+	case 12: // a symbolic link (also at depth), then entries beneath it two and more levels down
+		ln := hx.Pick(r, []string{"l", "a/l", "a/b/l"})
+		g.entry("s", ln, 0o777, 0, 0, 1, out)
+		g.note(ln, true)
+		g.entry(hx.Pick(r, []string{fk, "d", "s"}), ln+hx.Pick(r, []string{"/x/evil", "/x/y/evil", "/victim/x", "/x/y/z/w"}), g.fmode(), 3, 4, 4, "t")
+		g.entry(fk, "after", g.fmode(), 3, 2, 2, "")
+	case 13: // hard links in sub-directories: the link name is relative to the ROOT, not to the directory of the link
+		if g.zip {
+			g.entry("f", "a/f", g.fmode(), 2, 5, 5, "")
+			g.entry("s", "a/b/h", 0o777, 0, 0, 1, "../f")
+		} else {
+			g.entry("r", "a/f", g.fmode(), 2, 5, 5, "")
+			g.entry("r", "a/b/f", g.fmode(), 7, 6, 6, "")
+			g.entry("l", "a/b/h", 0o644, 0, 0, 0, hx.Pick(r, []string{"a/f", "a/b/f", "f", "../f", "b/f", "./a/f"}))
+			g.entry("l", "c/d/e/h2", 0o644, 0, 0, 0, hx.Pick(r, []string{"a/b/h", "a/f", "h", "c/d/e/h2"}))
+			g.note("a/f", false)
+			g.note("a/b/h", false)
+		}
+	case 14: // a symbolic link entry, then an entry of the SAME name (the final component must be inspected)
+		ln := hx.Pick(r, []string{"l", "a/l"})
+		tg := hx.Pick(r, []string{"../outside/victim", "../outside/new", "/tmp/" + placeholder + "/outside/victim", "../../outside/victim", "nonexistent", "../outside"})
+		g.entry("s", ln, 0o777, 0, 0, 1, tg)
+		k := hx.Pick(r, []string{fk, fk, "d", "s", "l"})
+		if g.zip && k == "l" {
+			k = "f"
+		}
+		g.entry(k, hx.Pick(r, []string{ln, "./" + ln, ln + "/."}), g.fmode(), 9, g.size(), 1<<20, "x")
+	case 15: // group/other write bits under the usual masks: every MkdirAll and OpenFile must apply the mask, and only the mask
+		g.maskOverride = hx.Pick(r, []int{0o777, 0o770, 0o755, 0o775, 0o707})
+		g.entry("d", "w", hx.Pick(r, []int{0o777, 0o775, 0o757}), 0, 0, 0, "")
+		g.entry(fk, "w/f", hx.Pick(r, []int{0o666, 0o664, 0o646, 0o777}), 1, 3, 3, "")
+		g.entry(fk, "p/q/f", hx.Pick(r, []int{0o666, 0o662, 0o777}), 1, 3, 3, "")
+		g.entry("s", "p2/q/l", 0o777, 0, 0, 1, "x")
+		if !g.zip {
+			g.entry("l", "p3/q/h", 0o644, 0, 0, 0, "w/f")
+		}
+		g.entry("d", "p4/q/d", hx.Pick(r, []int{0o777, 0o773}), 0, 0, 0, "")
+	case 16: // file twice, directory after file, file after directory, all on one name
+		nm := hx.Pick(r, []string{"z", "a/z"})
+		ks := []string{fk, "d", fk, "d", "s"}
+		for i := 0; i < 3; i++ {
+			g.entry(hx.Pick(r, ks), nm, g.fmode(), i, g.size(), 1<<20, "t")
+		}
+	case 17: // every fault kind at a chosen position of an otherwise benign archive
+		n := r.Range(1, 6)
+		at := r.Intn(n)
+		for i := 0; i < n; i++ {
+			nm := fmt.Sprintf("e%d", i)
+			if i != at {
+				g.entry(fk, nm, g.fmode(), i, g.size(), 1<<20, "")
+				continue
+			}
+			sz := hx.Pick(r, []int{1, 2, 512, 513, 32769})
+			switch {
+			case g.zip:
+				g.entry("f", nm, g.fmode(), i, sz, hx.Pick(r, []int{0, sz}), hx.Pick(r, []string{"L", "L", ""}))
+			case r.Bool():
+				g.entry("r", nm, g.fmode(), i, sz, r.Intn(sz), "")
+			default:
+				g.entry("x", "-", 0, r.Intn(2), 0, 0, "")
+			}
+		}
+	case 18: // a regular file where a parent directory is needed, at several depths
+		g.entry(fk, "p", g.fmode(), 2, 3, 3, "")
+		g.entry(hx.Pick(r, []string{fk, "d", "s"}), hx.Pick(r, []string{"p/a", "p/a/b", "p/a/b/c"}), g.fmode(), 2, 3, 1<<20, "x")
 	case 0: // a symbolic link, then an entry beneath it
 		g.entry("s", "l", 0o777, 0, 0, 1, out)
 		g.note("l", true)
@@ -455,22 +605,60 @@ func (g *gen) scenario() {
 	}
 }
 
-// Gen emits n archives.
-func (area) Gen(r *hx.Rng, n int, _ string, emit func(string)) {
-	priv := os.Geteuid() == 0
+// many emits an archive with a number of entries around the usual size thresholds (12 … 1000), spread over a directory
+// tree, with some symbolic and hard links, one directory chain of depth 33, and optionally one fault somewhere.
+func (g *gen) many() {
+	r := g.r
+	n := hx.Pick(r, []int{12, 16, 17, 32, 33, 64, 65, 100, 128, 129, 256, 257, 500, 1000})
+	fk := g.fileKind()
+	faultAt := -1
+	if r.Chance(1, 3) {
+		faultAt = r.Intn(n)
+	}
+	deep := strings.Repeat("deep/", 33)
+	lastFile := ""
 	for i := 0; i < n; i++ {
-		g := &gen{r: r, zip: r.Chance(2, 5), priv: priv, adv: hx.Pick(r, []int{4, 4, 4, 25, 25, 25, 60, 100})}
-		mask := 0o777
-		if r.Chance(1, 3) {
-			mask = hx.Pick(r, []int{0o755, 0o700, 0o750, 0o022, 0o077, 0o000, 0o711, 0o555, 0o027})
-			if !priv {
-				mask |= 0o700
-			}
+		dir := fmt.Sprintf("t%d/u%d", i%7, i%3)
+		nm := fmt.Sprintf("%s/f%d", dir, i)
+		switch {
+		case i == faultAt && g.zip:
+			g.entry("f", nm, 0o644, i%256, 9, 0, hx.Pick(r, []string{"", "L", "S"}))
+		case i == faultAt && r.Bool():
+			g.entry("x", "-", 0, r.Intn(2), 0, 0, "")
+		case i == faultAt:
+			g.entry("r", nm, 0o644, i%256, 600, r.Intn(600), "")
+		case i%29 == 5:
+			g.entry("d", fmt.Sprintf("%sd%d", deep, i), g.dmode()|0o700, 0, 0, 0, "")
+		case i%31 == 7:
+			g.entry("s", nm, 0o777, 0, 0, 1, hx.Pick(r, []string{"../outside", "f0", "."}))
+		case i%17 == 3 && !g.zip && lastFile != "":
+			g.entry("l", nm, 0o644, 0, 0, 0, lastFile)
+		case i%23 == 9:
+			g.entry("d", dir, g.dmode()|0o700, 0, 0, 0, "")
+		default:
+			g.entry(fk, nm, g.fmode(), i%256, hx.Pick(r, []int{0, 1, 7, 100, 513}), 1<<20, "")
+			lastFile = nm
 		}
-		g.sandbox()
-		if r.Chance(1, 12) { // write fault: no file may grow beyond this many bytes during the extraction
-			g.items = append(g.items, fmt.Sprintf("w:%d", hx.Pick(r, []int{0, 1, 5, 20, 512, 40000})))
+	}
+}
+
+func genLine(r *hx.Rng, priv, forceDst bool) string {
+	g := &gen{r: r, zip: r.Chance(2, 5), priv: priv, adv: hx.Pick(r, []int{4, 4, 4, 25, 25, 25, 60, 100}), maskOverride: -1, forceDst: forceDst}
+	mask := 0o777
+	if r.Chance(1, 3) {
+		mask = hx.Pick(r, []int{0o755, 0o700, 0o750, 0o022, 0o077, 0o000, 0o711, 0o555, 0o027, 0o770, 0o775, 0o707, 0o001, 0o1777, 0o7777,
+			0o37777777777, 0o20000000755, 0o776})
+		if !priv {
+			mask |= 0o700
 		}
+	}
+	g.sandbox()
+	if r.Chance(1, 12) { // write fault: no file may grow beyond this many bytes during the extraction
+		g.items = append(g.items, fmt.Sprintf("w:%d", hx.Pick(r, []int{0, 1, 5, 20, 512, 40000, 32767, 32768, 32769, 65536})))
+	}
+	if r.Chance(1, 150) {
+		g.many()
+	} else {
 		pre := 0
 		if r.Bool() {
 			pre = r.Intn(4) // benign entries before a scenario
@@ -484,14 +672,25 @@ func (area) Gen(r *hx.Rng, n int, _ string, emit func(string)) {
 		for k, m := 0, r.Range(1, 6); k < m; k++ {
 			g.randomEntry()
 		}
-		f := "tar"
-		if g.zip {
-			f = "zip"
-		}
-		line := fmt.Sprintf("%s %o %s", f, mask, strings.Join(g.items, " "))
-		// which exported function runs the archive is derived from the line itself (no draw from the generator, so the
-		// archives of a seed are the ones they always were): 1 line in 5 goes through Extract / ExtractArchive /
-		// ExtractArchiveWithMask, about 1 in 100 asks the *Archive* forms for a missing or a cut-off archive file
+	}
+	if g.maskOverride >= 0 {
+		mask = g.maskOverride
+	}
+	f := "tar"
+	if g.zip {
+		f = "zip"
+	}
+	return fmt.Sprintf("%s %o %s", f, mask, strings.Join(g.items, " "))
+}
+
+// Gen emits n archives.
+func (area) Gen(r *hx.Rng, n int, _ string, emit func(string)) {
+	priv := os.Geteuid() == 0
+	for i := 0; i < n; i++ {
+		line := genLine(r, priv, false)
+		// which exported function runs the archive is derived from the line itself (no draw from the generator):
+		// 1 line in 5 goes through Extract / ExtractArchive / ExtractArchiveWithMask, about 1 in 100 asks the *Archive*
+		// forms for a missing or a cut-off archive file; 1 line in 12 extracts the archive twice into the same destination
 		hs := fnv.New32a()
 		_, _ = hs.Write([]byte(line))
 		h := hs.Sum32() >> 3
@@ -501,6 +700,20 @@ func (area) Gen(r *hx.Rng, n int, _ string, emit func(string)) {
 		case h%5 == 0:
 			line += " v:" + []string{"x", "a", "am"}[(h/5)%3]
 		}
+		if (h>>9)%12 == 0 {
+			line += " r:2"
+		}
 		emit(line)
+	}
+}
+
+// linkArea: the destination is a symbolic link to a directory (see main.go).
+type linkArea struct{}
+
+// Gen emits sandboxes whose destination exists as a directory (the harness turns it into a link to a sibling).
+func (linkArea) Gen(r *hx.Rng, n int, _ string, emit func(string)) {
+	priv := os.Geteuid() == 0
+	for i := 0; i < n; i++ {
+		emit(genLine(r, priv, true))
 	}
 }
